@@ -56,6 +56,9 @@ def macro_body(i, callees, variant, seed, nparams=2):
     p = ("c", f"$p{i}") if nparams >= 1 else ("c", f"FIXED_P{i}")
     q = ("c", f"$q{i}") if nparams >= 2 else ("i", 40 + i)
     body = [A.Op(f"m{i}_a", [p, ("i", i)])]
+    if variant % 5 == 4:
+        # the first op the compiler numbers for the expansion is a jump that turns out to be redundant
+        body = [A.Jump("first"), A.Label("first")] + body
     for n, j in enumerate(callees):
         a1 = q if (n + variant) % 2 == 0 else ARG_KINDS[(seed + i + j) % len(ARG_KINDS)](i, j)
         a2 = p if (n + variant) % 3 == 0 else ("i", 100 + 10 * i + j)
